@@ -44,7 +44,7 @@ inductive Err where
 inductive Values (α : Type) where
   | empty
   | mat (rows : List (List α))
-  deriving Repr
+  deriving Repr, DecidableEq
 
 /-- rows of the values array, the placeholder read as "no rows" -/
 def Values.rows {α : Type} : Values α → List (List α)
